@@ -27,6 +27,7 @@ func main() {
 	prop := flag.String("property", "", "property id (C01..C20) or 'all'")
 	tier := flag.String("tier", "quick", "quick|thorough")
 	dump := flag.String("dump", "", "dump SSA of a function (debug)")
+	dumpLocks := flag.Bool("locks", false, "print entry locksets (debug)")
 	flag.Parse()
 
 	start := time.Now()
@@ -42,6 +43,13 @@ func main() {
 	}
 	if *dump != "" {
 		dumpFunc(w, *dump)
+		return
+	}
+	if *dumpLocks {
+		li := w.lockInfo()
+		for _, f := range w.modFuncs {
+			fmt.Printf("%-70s entry=%s edges=%d\n", fname(f), li.entryOf(f), len(li.edges[f]))
+		}
 		return
 	}
 
